@@ -3,6 +3,7 @@ package mon
 import (
 	"bytes"
 	"fmt"
+	"sort"
 	"strings"
 
 	"verif/harness/core"
@@ -179,14 +180,9 @@ func (C02Mon) After(w *core.World, st *core.Step) {
 	c.Oracle("C02.snapshot-eq-index")
 	snap, err := post.Flatten(cm.Tree)
 	if err != nil {
-		if !conflict {
-			w.Fail("C02.tree-shape", "tree-undecodable", trig, "after %s the new commit's tree does not flatten: %v", st.String(), err)
-		}
+		w.Fail("C02.tree-shape", "tree-undecodable", trig, "after %s the new commit's tree does not flatten: %v", st.String(), err)
 	} else if !EqualMaps(idx0, snap) {
-		if !conflict {
-			sym := "snapshot-differs"
-			w.Fail("C02.snapshot-eq-index", sym, trig, "after %s: snapshot of %s != staged set: %s", st.String(), short(X), DiffMaps(idx0, snap))
-		}
+		w.Fail("C02.snapshot-eq-index", "snapshot-differs", trig, "after %s: snapshot of %s != staged set: %s", st.String(), short(X), DiffMaps(idx0, snap))
 	} else {
 		c.Class("C02|" + nameShape(idx0) + "|parent:" + fmt.Sprint(pre.Branches[head] != ""))
 		if len(idx0) >= 2 {
@@ -266,6 +262,14 @@ func runC02(c *core.Ctx) {
 		k := NewWalker(w, gen.NameOpts{Space: true, NonASCII: w.Hist%2 == 0, Meta: w.Hist%5 == 0, MaxDepth: 4, N: 5 + w.Hist%6}, wts)
 		k.Hostile = 4
 		k.MaxContent = 70000
+		if w.Hist%5 == 1 {
+			// file <-> directory replacements: the staging area may then hold both p and p/q
+			k.Swap = true
+			k.Weights["edit-swap"] = 5
+			k.keys = append(k.keys, "edit-swap")
+			sort.Strings(k.keys)
+			k.total += 5
+		}
 		k.MsgClass = w.Hist%2 == 0 // every message class of the quantifiers (multi-line, tabs, %, non-ASCII ...)
 		k.Init()
 		if w.Hist%4 == 0 {
